@@ -53,3 +53,15 @@ package cache
 // Annotations addressed to other containers are different map keys than the three consulted for C.
 //@ lemma[C18] OtherContainerKeysDistinct(key string, c string, c2 string): c2 != c ==>
 //@     (key + "/container." + c2 != key + "/container." + c) && (key + "/container." + c2 != key + "/pod") && (key + "/container." + c2 != key)
+
+// ---- C19: user-supplied affinity weights are clamped -----------------------------------------
+
+//@ func (*Affinity).Validate
+//@   requires a != nil
+//@   modifies a.Weight
+//@   ensures[C19] result == nil ==> -1000 <= a.Weight && a.Weight <= 1000
+//@   ensures[C19] result == nil && -1000 <= old(a.Weight) && old(a.Weight) <= 1000 ==> a.Weight == old(a.Weight)
+
+// Every affinity parsed from an annotation is validated (hence clamped) before it is stored.
+//@ func (*podContainerAffinity).parseFull tags=C19
+//@ assert[C19] in (*podContainerAffinity).parseFull at "ca = append(ca, a)": -1000 <= a.Weight && a.Weight <= 1000
